@@ -1,5 +1,6 @@
 import Driver.Proto
 import AdaptaVerif.Model.Frame
+import AdaptaVerif.Model.RouteCost
 import AdaptaVerif.Num.Sqrt
 import AdaptaVerif.Gen.Comparators
 /-!
@@ -21,6 +22,7 @@ namespace Driver.C20
 open Driver AdaptaVerif.Num
 open AdaptaVerif.Model.Geometry (Pt)
 open AdaptaVerif.Model.Frame
+open AdaptaVerif.Model.RouteCost
 
 def tolRel : Rat := 1 / 1000000000
 
@@ -111,7 +113,19 @@ def numOf (c : Case) (k : String) (i : Nat) : Rat := ((c.get1 k).bind (fun l => 
 def ptStr (p : Pt) : String := s!"({ratToString p.x},{ratToString p.y})"
 def routeStr (r : List Pt) : String := " ".intercalate (r.map ptStr)
 
-def checkRouteTranslate (c : Case) : CaseResult := Id.run do
+/-- consecutive points that coincide to 1e-9 (relative) merged: a nudged display route may carry a jog of a few ulps -/
+def dedupClose (v : Array Rat) : Array Rat := Id.run do
+  let mut out : Array Rat := #[]
+  for i in [0:v.size / 2] do
+    let x := v[2*i]!
+    let y := v[2*i+1]!
+    if out.size ≥ 2 && closeRel out[out.size-2]! x && closeRel out[out.size-1]! y then continue
+    out := (out.push x).push y
+  return out
+
+/-- `lenient` (classes route-translate-params*, all nudging options): nudged display routes whose point counts differ
+    are compared after merging points that coincide to 1e-9 -/
+def checkRouteTranslate (c : Case) (lenient : Bool := false) : CaseResult := Id.run do
   let tx := numOf c "shift" 0
   let ty := numOf c "shift" 1
   let orth := flag c "orth" == 1
@@ -132,6 +146,10 @@ def checkRouteTranslate (c : Case) : CaseResult := Id.run do
       match nums? bv with
       | none => return { verdict := .specfail s!"route-translate: non-finite value in {lab} (B)" }
       | some br =>
+        let isDisp := lab.startsWith "display" || lab.startsWith "mdisplay"
+        let merge := lenient && orth && isDisp && ar.size != br.size
+        let ar := if merge then dedupClose ar else ar
+        let br := if merge then dedupClose br else br
         if ar.size != br.size then
           return { verdict := .specfail s!"route-translate: {lab} has {ar.size / 2} points, its translate {br.size / 2}: A={routeStr (ptsOf ar)} B={routeStr (ptsOf br)} shift=({ratToString tx},{ratToString ty})" }
         if lab.startsWith "exc" then
@@ -225,6 +243,116 @@ def checkRouteSymmetry (c : Case) : CaseResult := Id.run do
                      ("sym.other.route.same.cost", otherRoute), ("routes.with.bends", bendy),
                      ("finding.lib-assert", libAsserts c),
                      ("finding.lib-assert.one-frame-only", if libAsserts c > 0 && libAsserts c < 8 then 1 else 0)] }
+
+/-! ### route-symmetry-params: all routing parameters / options, degenerate alignments.  The harness reports, besides
+`route<i>`, the A* VERTEX PATH `path<i>` of every connector in every frame (DebugHandler); its cost under the Lean model
+of `cost()` (Model/RouteCost.lean: length + segmentPenalty·bends + reverseDirectionPenalty·reversing edges, proved
+invariant under the 8 symmetries in Props/C20.lean) must be the same in all 8 frames. -/
+
+/-- value of `param <i> v`, or the library default -/
+def paramOf (c : Case) (i : Nat) (dflt : Rat) : Rat :=
+  match (c.get "param").find? (fun l => l.size ≥ 2 && nat! l[0]! == i) with
+  | some l => (parseNum l[1]!).getD dflt
+  | none => dflt
+
+/-- 10·log10(11)/10.5 < 0.992: the largest factor `cost()` applies to anglePenalty at one bend -/
+def angleFactorMax : Rat := 992 / 1000
+
+def symVec (c : Case) (sym : Nat) (lab : String) : Option (Array String) :=
+  ((c.get "S").find? (fun l => l.size ≥ 2 && nat! l[0]! == sym && l[1]! == lab)).map (fun l => l.extract 2 l.size)
+
+def bendVertices : Route → Nat
+  | a :: b :: c :: rest => (if bendWeight a b c = 0 then 0 else 1) + bendVertices (b :: c :: rest)
+  | _ => 0
+
+def checkRouteSymmetryParams (c : Case) (crossStage : Bool) : CaseResult := Id.run do
+  let orth := flag c "orth" == 1
+  let seg := paramOf c 0 (numOf c "pen" 0)
+  let ang := paramOf c 1 0
+  let rev := paramOf c 8 0
+  let sc := sceneOf c
+  let conns := connsOf c
+  let a := runVecs c "A"
+  let aLabs := (a.filter (fun p => p.1.startsWith "route")).map (·.1)
+  for sym in [1:8] do
+    let sLabs := ((c.get "S").filter (fun l => l.size ≥ 2 && nat! l[0]! == sym && l[1]!.startsWith "route")).map (fun l => l[1]!)
+    if sLabs != aLabs then
+      return { verdict := .specfail s!"route-symmetry-params: sym {sym} produced routes {sLabs.toList} but the original scene {aLabs.toList} (a library assertion failed in one frame only: {(c.get "libassert").toList.map (·.toList)})" }
+  let mut compared := 0
+  let mut bendy := 0
+  let mut noPath := 0
+  let mut revCharged := 0
+  let mut aligned := 0
+  let mut alignedRev := 0
+  let mut otherRoute := 0
+  let mut xDiffers := 0
+  for ci in [0:conns.size] do
+    let (s, d) := conns[ci]!
+    let rl := s!"route{ci}"
+    let pl := s!"path{ci}"
+    match (findLabel a rl).bind nums?, (findLabel a pl).bind nums? with
+    | some ar, some ap =>
+      let ra := ptsOf ar
+      let pa := ptsOf ap
+      if s.x == d.x || s.y == d.y then
+        aligned := aligned + 1
+        if rev > 0 then alignedRev := alignedRev + 1
+      if bends ra > 0 then bendy := bendy + 1
+      if revEdges s d (if orth then pa.dropLast else pa) > 0 && rev > 0 then revCharged := revCharged + 1
+      for symI in [1:8] do
+        let sym := Sym.ofIdx symI
+        let F := Frame.ofSym sym
+        match (symVec c symI rl).bind nums?, (symVec c symI pl).bind nums? with
+        | some br, some bp =>
+          let rb := ptsOf br
+          let pb := ptsOf bp
+          compared := compared + 1
+          if rb.head? != some (F.act s) || rb.getLast? != some (F.act d) then
+            return { verdict := .specfail s!"route-symmetry-params: sym {symI} {rl} does not join the image endpoints: {routeStr rb}" }
+          let ctx := fun (_ : Unit) => s!"sym {symI} {rl} seg={ratToString seg} rev={ratToString rev} ang={ratToString ang} src={ptStr s} dst={ptStr d}: original route {routeStr ra} (obstacle-free={!(routeHits sc ra)}), vertex path {routeStr pa}; in the image scene route {routeStr rb} (obstacle-free={!(routeHits (F.actScene sc) rb)}), vertex path {routeStr pb}"
+          if orth && isOrth ra != isOrth rb then
+            return { verdict := .specfail s!"route-symmetry-params: axis-parallelism changes under the symmetry; {ctx ()}" }
+          if F.actRoute ra != rb then otherRoute := otherRoute + 1
+          -- the tie between the reported vertex path and the route (a search that found no path reports none)
+          if pa.isEmpty != pb.isEmpty then
+            return { verdict := .specfail s!"route-symmetry-params: a path is found in one frame only; {ctx ()}" }
+          if pa.isEmpty then
+            noPath := noPath + 1
+            continue
+          for (r, p, which) in [(ra, pa, "original"), (rb, pb, "image")] do
+            if p.head? != r.head? || p.getLast? != r.getLast? || bends p != bends r
+                || (orth && isOrth r && manhattanLen p != manhattanLen r) then
+              return { verdict := .diverge s!"route-symmetry-params: the A* vertex path reported through the DebugHandler is not the route ({which} frame); {ctx ()}" }
+          if orth then
+            if !(isOrth ra) then continue
+            let ca := orthPathCost seg rev s d pa
+            let cb := orthPathCost seg rev (F.act s) (F.act d) pb
+            if ca != cb then
+              if crossStage then xDiffers := xDiffers + 1 else
+              return { verdict := .specfail s!"route-symmetry-params: the cost of the route changes under the symmetry: {ratToString ca} (length {ratToString (manhattanLen pa)}, bends {bends pa}, charged reversing edges {revEdges s d pa.dropLast}) vs {ratToString cb} (length {ratToString (manhattanLen pb)}, bends {bends pb}, charged reversing edges {revEdges (F.act s) (F.act d) pb.dropLast}); {ctx ()}" }
+          else
+            let chargeBends := decide (ang > 0) || decide (seg > 0)
+            -- polyline: the target itself is the only cost target, every edge is charged
+            let qa := if chargeBends then penalties seg rev s d pa else rev * ((revEdges s d pa : Nat) : Rat)
+            let qb := if chargeBends then penalties seg rev (F.act s) (F.act d) pb else rev * ((revEdges (F.act s) (F.act d) pb : Nat) : Rat)
+            let loA := lenLo (sqLens pa) + qa
+            let hiA := lenHi (sqLens pa) + qa + ang * angleFactorMax * ((bendVertices pa : Nat) : Rat)
+            let loB := lenLo (sqLens pb) + qb
+            let hiB := lenHi (sqLens pb) + qb + ang * angleFactorMax * ((bendVertices pb : Nat) : Rat)
+            let tol := tolRel * (1 + hiA)
+            if loA > hiB + tol || loB > hiA + tol then
+              if crossStage then xDiffers := xDiffers + 1 else
+              return { verdict := .specfail s!"route-symmetry-params: the cost of the polyline route changes under the symmetry: [{ratToString loA}, {ratToString hiA}] vs [{ratToString loB}, {ratToString hiB}] (bends {bends pa} vs {bends pb}, reversing edges {revEdges s d pa} vs {revEdges (F.act s) (F.act d) pb}); {ctx ()}" }
+        | _, _ => return { verdict := .specfail s!"route-symmetry-params: sym {symI}: vector {rl}/{pl} missing or non-finite" }
+    | _, _ => return { verdict := .specfail s!"route-symmetry-params: vector {rl}/{pl} missing in A or non-finite" }
+  return { verdict := .ok, nontrivial := bendy > 0,
+           stats := [("sym.routes.compared", compared), ("routes.with.bends", bendy),
+                     ("sym.other.route.same.cost", otherRoute),
+                     ("params.conns.aligned", aligned), ("params.conns.aligned.with.reverse-penalty", alignedRev),
+                     ("params.conns.charged.reverse-penalty", revCharged), ("params.no-path", noPath),
+                     ("params.crossing-stage.cost-differs", xDiffers),
+                     ("params.set", (c.get "param").size), ("params.options.set", (c.get "opt").size),
+                     ("finding.lib-assert", libAsserts c)] }
 
 /-! ### VPSC -/
 
@@ -322,6 +450,9 @@ def run (_args : List String) : IO UInt32 :=
     else if c.tag == "removeoverlaps-coincident" then checkTwice c "not reproducible (removeoverlaps, coincident centres)"
     else if c.tag == "layout-twice" then checkLayoutTwice c
     else if c.tag == "route-translate" || c.tag == "route-translate-orth" then checkRouteTranslate c
+    else if c.tag == "route-translate-params" || c.tag == "route-translate-params-orth" then checkRouteTranslate c true
+    else if c.tag == "route-symmetry-params" then checkRouteSymmetryParams c false
+    else if c.tag == "route-symmetry-params-x" then checkRouteSymmetryParams c true
     else if c.tag == "route-symmetry" || c.tag == "route-symmetry-dirs" then checkRouteSymmetry c
     else if c.tag == "route-symmetry-dirs-any" then
       -- arbitrary direction restrictions: the unchanged library is not symmetric there (U-turns at restricted ends,
